@@ -62,6 +62,7 @@ def build_tonl(sc, sid):
             stmt = {
                 "callF": "_ = %sTF(%d)" % (q, n),
                 "callM": "_ = s%d.TM(%d)" % (n, n),
+                "callMvar": "_ = gs.TM(%d)" % n,
                 "callPF": "_ = %sPF(%d)" % (q, n),
                 "callPM": "_ = s%d.PM(%d)" % (n, n),
                 "shadow": "_ = TF(%d)" % n,
@@ -83,7 +84,7 @@ def build_tonl(sc, sid):
             out.add("}", "")
         files.append(out)
     h = Out("%s/zz_handles.go" % pkg, pkg)
-    h.add("// H is a local receiver type.", "type H struct{}", "", "var _ %sS" % q, "")
+    h.add("// H is a local receiver type.", "type H struct{}", "", "var gs %sS" % q, "")
     if "alias" in spells:
         h.add("type TA = %sTT" % q, "")
     if "ptralias" in spells:
@@ -175,6 +176,7 @@ def build_pkgo(sc, sid):
                 "callF": "_ = %sPF(%d)" % (q, n),
                 "funcValue": "f%d := %sPF" % (n, q),
                 "methCall": "_ = s%d.PM(%d)" % (n, n),
+                "methCallVar": "_ = gs.PM(%d)" % n,
                 "methValue": "f%d := s%d.PM" % (n, n),
                 "typeLit": "_ = %s{X: %d}" % (PT, n),
                 "typeVar": "var v%d %s" % (n, PT),
@@ -193,7 +195,8 @@ def build_pkgo(sc, sid):
     disallowed = bool(sc["expect"])
     h = Out("%s/zz_handles.go" % pdir, pname)
     h.auto_imports = pkg != "d"
-    h.add("// the using package imports d directly (annotations are visible through direct imports only)", "var _ %sQ" % q, "")
+    h.add("// the using package imports d directly (annotations are visible through direct imports only)", "var _ %sQ" % q, "",
+          "var gs %sS" % q, "")
     if spells & {"alias", "ptralias"}:
         # the alias declaration is itself a reference to d.PT from the using package (first use in its file)
         h.tagged("aliasdecl", "type TA = %sPT" % q if "alias" in spells else "type TP = *%sPT" % q, "")
